@@ -186,6 +186,8 @@ func buildPolicies(st []PolD, li *liveInst) []failsafe.Policy[int] {
 				OnSuccess(func(e failsafe.ExecutionEvent[int]) { log().attempt("PolSuccess", pos, e.ExecutionAttempt, 0) }).
 				OnFailure(func(e failsafe.ExecutionEvent[int]) { log().attempt("PolFailure", pos, e.ExecutionAttempt, 0) })
 			ps = append(ps, b.Build())
+			// a built policy is a snapshot: what is done to its builder afterwards must not reach it
+			b.WithMaxRetries(int(p.MaxRetries)+5).OnRetry(func(e failsafe.ExecutionEvent[int]) { log().attempt("Retry", pos+1000, e.ExecutionAttempt, 0) })
 		case "Breaker":
 			ps = append(ps, &posPolicy{inner: li.breakers[p.Inst], pos: pos, cur: li.bpos[p.Inst]})
 		case "Limiter":
@@ -193,14 +195,17 @@ func buildPolicies(st []PolD, li *liveInst) []failsafe.Policy[int] {
 		case "Bulkhead":
 			ps = append(ps, &posPolicy{inner: li.bulkheads[p.Inst], pos: pos, cur: li.kpos[p.Inst]})
 		case "Timeout":
-			ps = append(ps, timeout.Builder[int](time.Duration(p.Limit)).OnTimeoutExceeded(func(e failsafe.ExecutionDoneEvent[int]) {
+			tb := timeout.Builder[int](time.Duration(p.Limit)).OnTimeoutExceeded(func(e failsafe.ExecutionDoneEvent[int]) {
 				log().addT("TimeoutExceeded", pos, e.Attempts(), e.Retries(), e.Hedges(), e.Executions(), gOutcome(e.Result, e.Error), 0, log().abs(e.StartTime()), -1)
-			}).Build())
+			})
+			ps = append(ps, tb.Build())
+			tb.OnTimeoutExceeded(func(e failsafe.ExecutionDoneEvent[int]) { log().done("TimeoutExceeded", pos+1000, e) })
 		case "Hedge":
 			b := hedgepolicy.BuilderWithDelay[int](time.Duration(p.HDelay)).WithMaxHedges(p.Hedges)
 			b = applyCancelHedge(b, p.Cancel)
 			b = b.OnHedge(func(e failsafe.ExecutionEvent[int]) { log().attempt("Hedge", pos, e.ExecutionAttempt, 0) })
 			ps = append(ps, b.Build())
+			b.WithMaxHedges(p.Hedges+3).OnHedge(func(e failsafe.ExecutionEvent[int]) { log().attempt("Hedge", pos+1000, e.ExecutionAttempt, 0) })
 		case "Fallback":
 			var b fallback.FallbackBuilder[int]
 			switch p.FBKind {
@@ -224,6 +229,7 @@ func buildPolicies(st []PolD, li *liveInst) []failsafe.Policy[int] {
 				OnSuccess(func(e failsafe.ExecutionEvent[int]) { log().attempt("PolSuccess", pos, e.ExecutionAttempt, 0) }).
 				OnFailure(func(e failsafe.ExecutionEvent[int]) { log().attempt("PolFailure", pos, e.ExecutionAttempt, 0) })
 			ps = append(ps, b.Build())
+			b.OnFallbackExecuted(func(e failsafe.ExecutionDoneEvent[int]) { log().done("FallbackExecuted", pos+1000, e) })
 		default:
 			b := cachepolicy.Builder[int](li.caches[p.Inst])
 			if p.Key != 0 {
@@ -235,7 +241,7 @@ func buildPolicies(st []PolD, li *liveInst) []failsafe.Policy[int] {
 			b = b.OnCacheHit(func(e failsafe.ExecutionDoneEvent[int]) { log().done("CacheHit", pos, e) }).
 				OnCacheMiss(func(e failsafe.ExecutionEvent[int]) { log().attempt("CacheMiss", pos, e.ExecutionAttempt, 0) }).
 				OnResultCached(func(e failsafe.ExecutionEvent[int]) { log().attempt("Cached", pos, e.ExecutionAttempt, 0) })
-			ps = append(ps, b.Build())
+			ps = append(ps, b.Build()) // (a built cache policy shares its builder's configuration: not touched afterwards)
 		}
 	}
 	return ps
